@@ -444,7 +444,17 @@ func runRollout(r *vs.Rand, i int, seed uint64, out *vs.Out, crash bool) {
 			sc.w.sim.CutAfter = cutK
 		}
 		if k == faultRound {
-			sc.w.sim.FaultAt = map[int][2]string{cutK: faultKind}
+			if cutK%2 == 0 {
+				// aimed at the intent records: the first ControllerRevision write of this sync fails
+				verb := []string{"update", "update", "create", "delete"}[cutK/2%4]
+				code := 500
+				if faultKind[1] == "Conflict" || faultKind[1] == "AlreadyExists" {
+					code = 409
+				}
+				sc.w.sim.Faults = []*vs.Fault{{Verb: verb, Resource: "controllerrevisions", Nth: 1, Code: code, Reason: faultKind[1]}}
+			} else {
+				sc.w.sim.FaultAt = map[int][2]string{cutK: faultKind}
+			}
 		}
 		if k == deleteAt {
 			sc.w.sim.Mutate(parentGroup, cfg.parentResource(), nsOfKey(sc.key), "p1", func(o map[string]interface{}) {
@@ -453,6 +463,7 @@ func runRollout(r *vs.Rand, i int, seed uint64, out *vs.Out, crash bool) {
 		}
 		_, ri := sc.round(i, seed, k, true, out, "rollout")
 		sc.w.sim.FaultAt = nil
+		sc.w.sim.Faults = nil
 		if k == cutRound {
 			sc.w.sim.CutAfter = -1
 			// the process dies here: what it kept in memory is gone
